@@ -5,7 +5,7 @@ from common.check import PropertyCheck
 from common.paths import REPO
 import c09_engine as E
 
-ADDRID = {"a": "0", "b": "1", "-": "-"}
+ADDRID = {"a": "0", "b": "1", "c": "2", "d": "3", "e": "4", "f": "5", "g": "6", "h": "7", "-": "-"}
 
 
 def _sem_size_from_source():
@@ -32,6 +32,7 @@ def project(trace):
     owner, started, gidx, nextg = {}, set(), {}, 0        # key -> global attempt; started attempts; task label -> global
     cstarted = False
     queued = set()                                         # task labels currently queued on a semaphore
+    requested, opened = {}, {}                             # task label -> requested address letter; attempt -> letter
     entries = set()                                        # server keys currently in the real transports
     awaited = set()                                        # attempts handle_client's final asyncio.wait waits for
     i, n = 0, len(trace)
@@ -47,9 +48,12 @@ def project(trace):
             if t == "H": pass
             elif t == "C": cstarted = True; lines.append("a C start")
             elif t.startswith("s"):
-                g = owner[r[2]]; gidx[t] = g; started.add(g); lines.append(f"a s{g} start")
+                g = owner[r[2]]; gidx[t] = g; started.add(g); lines.append(f"a s{g} start"); requested[t] = opened.get(g)
             else: lines.append(f"a {t} start")
         elif k == "hook": lines.append(f"a {tid(r[1])} hook {r[2]}")
+        elif k == "dial":
+            # the address as the server_connect hook left it; only a rewrite is an action of its own
+            if r[2] in ADDRID and r[2] != "-" and r[2] != requested.get(r[1]): lines.append(f"a {tid(r[1])} dial {ADDRID[r[2]]}")
         elif k == "hookret":
             lines.append(f"a {tid(r[1])} hookret {r[3]} {r[4]}")
             if r[1] == "H" and r[2] == "cd":
@@ -67,7 +71,7 @@ def project(trace):
             out = []
             for c in cmds:
                 if c[1] == "open":
-                    owner[c[2]] = nextg; nextg += 1
+                    owner[c[2]] = nextg; opened[nextg] = c[3]; nextg += 1
                     out.append(f"o{c[2]}:{ADDRID[c[3]]}")
                 elif c[1] == "hook": out.append("k")
             lines.append(f"a {tid(r[1])} ev {r[2]} {','.join(out) or '-'}")
@@ -112,14 +116,16 @@ class Check(PropertyCheck):
     level_text = ("Lean theorems (client_hooks_paired, connect_outcome_exactly_one, connected_then_disconnected_once, "
                   "at_most_five_per_address, no_transports_after_return, wait_counts_callbacks, "
                   "final_wait_covers_transports, semaphore_accounts_balanced, at_most_n_per_address, "
-                  "waiters_are_tasks_of_the_address, cancelled_waiter_keeps_count) about a program-counter model of ConnectionHandler's tasks (handle_client, one "
+                  "waiters_are_tasks_of_the_address, cancelled_waiter_keeps_count, slot_keyed_on_dialled_address) about a program-counter model of ConnectionHandler's tasks (handle_client, one "
                   "task per open_connection, the client connection handler, hook tasks) TOGETHER WITH an explicit small-step "
                   "model of the asyncio machinery they rely on: per-task done-callback lists in registration order "
                   "(release_transport, asyncio.wait's completion callback) run only after the task finished, "
                   "asyncio.wait as a counter, and asyncio.Semaphore transcribed from CPython 3.12 (counter per address, FIFO "
                   "of waiters, acquire = take a slot when not locked else queue, release = increment and hand the slot to "
                   "the first pending waiter, a cancelled queued waiter leaves the queue without touching the counter, a "
-                  "waiter cancelled after the hand-off gives the slot back). Proved for EVERY schedule: any choice of the next runnable task action or "
+                  "waiter cancelled after the hand-off gives the slot back); the semaphore key is the address that is DIALLED — "
+                  "read after the server_connect hook, in which an addon may have rewritten it — and every per-address "
+                  "theorem counts by that address. Proved for EVERY schedule: any choice of the next runnable task action or "
                   "callback, every await returning normally, failing or delivering a cancellation, any command list from "
                   "the layer (induction over the schedule, invariants). The model is tied to the real "
                   "ProxyConnectionHandler running on a virtual-time asyncio loop by trace inclusion: the schedule the real "
@@ -139,7 +145,8 @@ class Check(PropertyCheck):
                   "writers, real sockets and the event loop's selector are out of scope; the tie is differential "
                   "(systematic cancellation/disconnect injection at every step of base scenarios + random scripts).")
     technique = "Lean 4 proof (invariants over all schedules of a task system) + trace-inclusion correspondence on a virtual-time loop"
-    rule = ("environment scripts over {layer commands carried by client/server data, connect ok/refuse, hook release, "
+    rule = ("environment scripts over {layer commands carried by client/server data (8 destination addresses), "
+            "server_connect hook policies that rewrite the address (many->one, swap, one->many), connect ok/refuse, hook release, "
             "peer data/EOF/reset, drain failure, write_eof failure, clock advance, cancellation of a handler task, client "
             "EOF/reset}; base scenarios with a cancellation / client disconnect injected after every step, then random "
             "scripts. distinct = distinct script; non-trivial = at least one upstream connection attempt.")
@@ -175,6 +182,11 @@ class Check(PropertyCheck):
              {"closed_c": "", "closed_s": "C$"}, {"closed_c": "Cc", "hookdone": "O7b", "start": "X"},
              {"closed_c": "Cc;C0;C1", "closed_s": "H$"}]
     BASES = [
+        # eight connections whose requested addresses all differ; an addon may redirect them (case["rewrite"]) — the bound of
+        # five is per DIALLED address
+        [["cli", "O0a;O1b;O2c;O3d;O4e;O5f;O6g;O7h"], ["conn", 0, "ok"], ["conn", 1, "ok"], ["conn", 2, "ok"], ["conn", 3, "ok"],
+         ["conn", 4, "ok"], ["conn", 5, "ok"], ["conn", 6, "ok"], ["conn", 7, "ok"], ["seof", 2], ["conn", 5, "ok"], ["cli", "C6"],
+         ["conn", 7, "ok"]],
         # N+2 concurrent opens to ONE address: five get a slot, two queue for one; a cancellation of a queued one
         # (injected at every position) must not free a slot
         [["cli", "O0a;O1a;O2a;O3a;O4a;O5a;O6a"], ["conn", 0, "ok"], ["conn", 1, "ok"], ["conn", 2, "ok"], ["conn", 3, "ok"],
@@ -205,7 +217,15 @@ class Check(PropertyCheck):
             for t in tasks:
                 yield steps[:pos] + [["cancel", t]] + steps[pos:]
 
+    REWRITES = [{"*": "a"}, {"0": "b", "1": "a", "2": "b", "3": "a"}, {"0": "b", "1": "c", "2": "d", "3": "e", "4": "f", "5": "g"},
+                {"*": "b", "0": "a"}]
+
     def _systematic(self, tier):
+        # address rewriting in the server_connect hook: many -> one, swap, one -> many
+        for rw in self.REWRITES:
+            for bi in (0, 1, 2):
+                for slow in ([], ["sc"], ["sc", "sd", "se", "sx"]):
+                    yield {"steps": self.BASES[bi], "slow": slow, "react": self.REACT[0], "rewrite": rw}
         for bi, base in enumerate(self.BASES):
             for slow in (self.SLOW if tier == "thorough" else self.SLOW[:6]):
                 for react in (self.REACT if tier == "thorough" else self.REACT[:2]):
@@ -244,6 +264,8 @@ class Check(PropertyCheck):
         case = {"steps": steps, "slow": rng.choice(self.SLOW), "react": rng.choice(self.REACT)}
         if rng.random() < 0.05: case["kill_client"] = True
         if rng.random() < 0.2: case["kill_server"] = [rng.randint(0, 7)]
+        if rng.random() < 0.25:
+            case["rewrite"] = rng.choice(self.REWRITES + [{str(rng.randint(0, 7)): rng.choice("abc") for _ in range(rng.randint(1, 5))}])
         return case
 
     def generate(self, rng, tier):
